@@ -73,9 +73,11 @@ class _Printer:
         if k == "seq":
             return "".join(self.p(x) for x in r["parts"])
         if k == "rep":
-            body = self.p(r["body"])
-            if r["body"]["r"] in ("seq", "alt", "rep", "at"):
-                body = "(?:" + self.p(r["body"], True) + ")"
+            b = r["body"]
+            if b["r"] in ("seq", "alt", "rep", "at") or (b["r"] == "uns" and b["kind"] in ("backref", "possessive")):
+                body = "(?:" + self.p(b, True) + ")"
+            else:
+                body = self.p(b)
             lo, hi = r["lo"], r["hi"]
             if (lo, hi) == (0, INF):
                 q = "*"
@@ -109,9 +111,10 @@ class _Printer:
             if kind == "atomic":
                 return "(?>" + self.p(b, True) + ")"
             if kind == "possessive":
-                inner = self.p(b)
-                if b["r"] in ("seq", "alt", "rep", "at"):
+                if b["r"] in ("seq", "alt", "rep", "at") or (b["r"] == "uns" and b["kind"] in ("backref", "possessive")):
                     inner = "(?:" + self.p(b, True) + ")"
+                else:
+                    inner = self.p(b)
                 return inner + "*+"
         raise ValueError("rxtext: cannot print %r" % (r,))
 
